@@ -69,6 +69,8 @@ enum Exp {
     One(&'static [&'static str], Option<u64>),
     /// subscription: first an ack (exactly one), afterwards only events with this tid
     Sub(&'static str),
+    /// like One, and the session's own waiting acquireLock with this tid must have been answered (cancelled) by the end of the step
+    OneCancels(&'static [&'static str], Option<u64>, u64),
     /// acquireLock that has to wait: no answer yet
     Pending,
     /// answered immediately with ack (acquire on free key)
@@ -98,6 +100,10 @@ fn check_step(s: &mut Session, tid: u64, exp: &Exp, open: bool, msgs: &[(String,
             if let (Some(c), "err") = (code, mine[0].0.as_str()) { if mine[0].2 != Some(*c) { return Some(format!("error code {:?}, expected {c}", mine[0].2)); } }
             if code.is_some() && mine[0].0 != "err" { return Some(format!("expected an err with code {code:?}, got {:?}", mine[0].0)); }
         }
+        Exp::OneCancels(kinds, code, cancelled) => {
+            if let Some(p) = check_step_one(&mine, tid, kinds, code) { return Some(p); }
+            if s.pending.contains(cancelled) { return Some(format!("the waiting acquireLock {cancelled} of this session was cancelled by this request but has not been answered")); }
+        }
         Exp::Sub(event) => {
             if mine.is_empty() || mine[0].0 != "ack" { return Some(format!("subscription must be acknowledged first, got {mine:?}")); }
             if mine.iter().filter(|m| m.0 == "ack" || m.0 == "err").count() != 1 { return Some(format!("more than one terminal answer: {mine:?}")); }
@@ -119,6 +125,14 @@ fn check_step(s: &mut Session, tid: u64, exp: &Exp, open: bool, msgs: &[(String,
             if code.is_none() { s.subs.remove(&tid); }
         }
     }
+    None
+}
+
+fn check_step_one(mine: &[&(String, Option<u64>, Option<u64>)], tid: u64, kinds: &[&str], code: &Option<u64>) -> Option<String> {
+    if mine.len() != 1 { return Some(format!("expected exactly one answer with tid {tid}, got {mine:?}")); }
+    if !kinds.contains(&mine[0].0.as_str()) { return Some(format!("answer kind {:?} not assigned to this request (allowed {kinds:?})", mine[0].0)); }
+    if let (Some(c), "err") = (code, mine[0].0.as_str()) { if mine[0].2 != Some(*c) { return Some(format!("error code {:?}, expected {c}", mine[0].2)); } }
+    if code.is_some() && mine[0].0 != "err" { return Some(format!("expected an err with code {code:?}, got {:?}", mine[0].0)); }
     None
 }
 
@@ -178,7 +192,7 @@ fn script() -> Vec<Step> {
         (1, json!({"lock": {"transactionId": 51, "key": "L"}}), 51, Exp::One(c, Some(20))),
         (1, json!({"acquireLock": {"transactionId": 52, "key": "L"}}), 52, Exp::Pending),
         // a release by the waiting (non-holding) session is refused AND cancels its pending request: two answers, two tids
-        (1, json!({"releaseLock": {"transactionId": 53, "key": "L"}}), 53, Exp::One(c, Some(20))),
+        (1, json!({"releaseLock": {"transactionId": 53, "key": "L"}}), 53, Exp::OneCancels(c, Some(20), 52)),
         (1, json!({"acquireLock": {"transactionId": 54, "key": "L"}}), 54, Exp::Pending),
         (0, json!({"releaseLock": {"transactionId": 55, "key": "L"}}), 55, Exp::One(&["ack"], None)),
         (1, json!({"get": {"transactionId": 56, "key": "k2"}}), 56, Exp::One(&["state"], None)),
